@@ -471,14 +471,14 @@ def _r108(ck, prog, cfg):
         ck.ok("R10.8", "wal.rs:no-reordering-of-entries" + _tag(cfg), "%d functions scanned" % scanned)
 
 
-def r109(ck, prog, cfg, rid):
+def r109(ck, prog, cfg, rid, file="src/streaming/wal.rs", owners=("WalReader",), what="WAL reader", floor=3):
     EDIT = re.compile(r"Vec::<u8>::(truncate|drain|retain|retain_mut|split_off|resize|resize_with|clear|pop|remove|swap_remove|insert|dedup\w*|set_len|splice)(::<.*>)?$|"
                       r"<impl \[u8\]>::(trim_ascii\w*|strip_suffix|strip_prefix|rsplit\w*|fill|reverse|copy_within|sort\w*)(::<.*>)?$")
     n = hits = 0
     for f in prog.lib_fns():
-        if f.file != "src/streaming/wal.rs" or "::tests::" in f.id:
+        if f.file != file or "::tests::" in f.id:
             continue
-        if "WalReader" not in (f.d.get("impl_self") or "") and "WalReader" not in f.id:
+        if not any(o in (f.d.get("impl_self") or "") or o in f.id for o in owners):
             continue
         n += 1
         for b, t in f.calls():
@@ -486,12 +486,12 @@ def r109(ck, prog, cfg, rid):
             if EDIT.search(callee(t)) or EDIT.search(c):
                 hits += 1
                 ck.bad(rid, "%s:%s#%d%s" % (re.sub(r"\{closure#\d+\}", "{closure}", f.id.replace("streaming::wal::", "")), callee(t).rsplit("::", 1)[-1].split("<")[0], hits, _tag(cfg)),
-                       "the WAL reader edits the file image before decoding it (%s): entries are then judged on bytes that are not the bytes on "
-                       "disk - an intact last entry can be cut and dropped, and truncation computes a file's newest stamp without it"
-                       % callee(t)[-40:], f.where(t["ln"]))
-    ck.floor(rid + ":functions-scanned" + _tag(cfg), n, 3)
+                       "the %s edits the bytes it read before decoding them (%s): records are then judged on bytes that are not the validated "
+                       "bytes on disk - an intact record can be cut off and silently dropped"
+                       % (what, callee(t)[-40:]), f.where(t["ln"]))
+    ck.floor(rid + ":functions-scanned" + _tag(cfg), n, floor)
     if hits == 0:
-        ck.ok(rid, "reader-decodes-image-as-read" + _tag(cfg), "%d WalReader functions scanned" % n)
+        ck.ok(rid, "reader-decodes-image-as-read" + _tag(cfg), "%d %s functions scanned" % (n, "/".join(owners)))
 
 
 # ------------------------------------------------------------------------------------------------
